@@ -679,7 +679,9 @@ def _subscript(it, base, idx):
         if not implied(it, zi(idx.valid_for) == zi(base.shape[0])):
             raise Unsupported('integer index array whose valid range is not the extent of the indexed axis')
         f, g = base.fn, idx.fn
-        return NDArray((idx.shape[0],), base.dtype, lambda t: f(g(t)))
+        r = NDArray((idx.shape[0],), base.dtype, lambda t: f(g(t)))
+        r.gather_of = (base, idx)         # ghost: r[t] == base[idx[t]]
+        return r
     return M.MISSING
 
 
@@ -914,8 +916,24 @@ def _assign(self, fr, t, v):
         nm = t.id if isinstance(t, ast.Name) else t.attr
         c = self.run.fresh('v_' + nm.strip('_'), X.XReal)
         self.run.assume(c == v)
+        self.run.__dict__.setdefault('named_defs', {})[c.get_id()] = v       # ghost: the defining term of a named scalar
         v = c
     return _orig_assign(self, fr, t, v)
 
 
 E.Interp.assign = _assign
+
+
+# ------------------------------------------------------------------------------------------ `for i in range(<symbolic>)` under a loop contract
+_orig_symbolic_loop = E.Interp.symbolic_loop
+
+
+def _symbolic_loop(self, fr, s, it):
+    if isinstance(it, M.SymRange) and conc(it.step) == 1:
+        lo, hi = zi(it.lo), zi(it.hi)
+        n = z3.If(hi > lo, hi - lo, 0) if not implied(self, hi >= lo) else hi - lo
+        it = NP.EnumList(norm(z3.simplify(n)), (lambda i: i) if conc(lo) == 0 else (lambda i: z3.simplify(lo + i)))
+    return _orig_symbolic_loop(self, fr, s, it)
+
+
+E.Interp.symbolic_loop = _symbolic_loop
